@@ -181,6 +181,13 @@ func c18Case(w *core.W, j int) {
 	now := uint32(time.Now().Unix())
 	sig := &dns.SIG{RRSIG: dns.RRSIG{KeyTag: key.KeyTag(), SignerName: keyName.Pres(), Algorithm: alg, Inception: now - 7200, Expiration: now + 7200}}
 	wit := map[string]any{"alg": an, "kind": kind, "compress": m.Compress, "message": hx(plain)}
+	if j%4 == 2 {
+		// a SIG value that already has a header of its own - a template read from a zone file or filled in
+		// with the signer as owner: what is appended is still a record the verifier can find and check
+		sig.Hdr = dns.RR_Header{Name: []string{keyName.Pres(), "sig-template.example.", "x."}[j/4%3], Rrtype: dns.TypeSIG, Class: []uint16{dns.ClassANY, dns.ClassINET}[j/4%2], Ttl: 300}
+		wit["sig_header_preset"] = sig.Hdr.Name
+		w.Count("sig_templates_with_header", 1)
+	}
 	var out []byte
 	w.Eval(1)
 	if w.Guard("SIG.Sign", wit, func() { out, err = sig.Sign(k.Priv, m) }) {
@@ -505,6 +512,30 @@ func c18Case(w *core.W, j int) {
 				w.Violation(keyf("accepts-truncated"), fmt.Sprintf("Verify accepts the signed message truncated to %d of %d octets", c, len(out)), wit)
 			}
 			w.Count("truncations", 1)
+		}
+	}
+	// the same signed message as another signer may emit it: the SIG record owned by a name instead of
+	// the root (RFC 2931 s.3: "SHOULD" be root; the owner is not covered by the signature). Whole, it is
+	// judged by the oracle; cut at every point from the SIG record on it is an error, never a panic.
+	if len(out) <= 1200 {
+		for _, ow := range []model.Name{keyName, {[]byte("a")}, g.NameOfWireLen(54), g.NameOfWireLen(255)} {
+			alt := append(append(append([]byte(nil), out[:p.bodyEnd]...), ow.Wire()...), out[p.bodyEnd+1:]...)
+			if len(alt) > 65535 {
+				continue
+			}
+			w.Count("foreign_owner_sig_messages", 1)
+			judge("sig-owner-not-root", alt)
+			for c := p.bodyEnd; c < len(alt); c++ {
+				for _, s := range []*dns.SIG{sig, rsig} {
+					if s == nil {
+						continue
+					}
+					if verr, ok := verify(s, key, alt[:c]); ok && verr == nil {
+						w.Violation(keyf("accepts-truncated/sig-owner-not-root"), fmt.Sprintf("Verify accepts the signed message truncated to %d of %d octets", c, len(alt)), wit)
+					}
+					w.Count("truncations", 1)
+				}
+			}
 		}
 	}
 	o := walkOffsets(out)
